@@ -289,5 +289,324 @@ Proof.
   - apply IH. intros kr0 Hin. apply Hall. now right.
 Qed.
 
+(* ------------------------------------------------------------------ the cuts, exactly *)
+(* what is created for one reported cut edge c: a sink and a source carrying the cut's name,
+   the sink without outputs, fed (input "input") by output c_sout of the node called
+   c_snode and listed among the sinks of the source part; the source without inputs *)
+Definition cut_ok (hp : list (node P)) (sl : list (K * list nat)) (c : cutedge K) (pr : nat * nat) : Prop :=
+  exists snk src p,
+    nth_error hp (fst pr) = Some snk /\ nth_error hp (snd pr) = Some src /\
+    nname snk = cut_name c /\ nname src = cut_name c /\
+    nouts snk = [] /\ nouts src = [DEFAULT_OUTPUT] /\ nins src = [] /\
+    nins snk = [("input", (p, c_sout c))] /\ p < List.length hp /\ name_of hp p = c_snode c /\
+    exists k' ss, In (k', ss) sl /\ In (fst pr) ss /\ (k' = c_skey c \/ keqb k' (c_skey c) = true).
+
+Definition sinks_mono (sl sl' : list (K * list nat)) : Prop :=
+  forall k ss x, In (k, ss) sl -> In x ss -> exists ss', In (k, ss') sl' /\ In x ss'.
+
+Lemma sinks_mono_refl : forall sl, sinks_mono sl sl.
+Proof. intros sl k ss x H1 H2. eauto. Qed.
+
+Lemma sinks_mono_trans : forall a b c, sinks_mono a b -> sinks_mono b c -> sinks_mono a c.
+Proof. intros a b c H1 H2 k ss x Ha Hx. destruct (H1 _ _ _ Ha Hx) as (ss' & Hb & Hx'). eapply H2; eassumption. Qed.
+
+Lemma add_sink_mono : forall k s l, sinks_mono l (add_sink keqb k s l).
+Proof.
+  intros k s l k0 ss x Hin Hx. induction l as [|[k' ss'] l IH]; [contradiction|]. simpl.
+  destruct Hin as [Heq|Hin].
+  - injection Heq as -> ->. destruct (keqb k0 k).
+    + exists (ss ++ [s]). split; [now left|apply in_or_app; now left].
+    + exists ss. split; [now left|assumption].
+  - destruct (keqb k' k).
+    + exists ss. split; [now right|assumption].
+    + destruct (IH Hin) as (ss1 & H1 & H2). exists ss1. split; [now right|assumption].
+Qed.
+
+Lemma add_sink_adds_key : forall k s l, exists k' ss,
+  In (k', ss) (add_sink keqb k s l) /\ In s ss /\ (k' = k \/ keqb k' k = true).
+Proof.
+  intros k s l. induction l as [|[k' ss'] l IH]; simpl.
+  - exists k, [s]. split; [now left|]. split; [now left|now left].
+  - destruct (keqb k' k) eqn:E.
+    + exists k', (ss' ++ [s]). split; [now left|]. split; [apply in_or_app; right; now left|now right].
+    + destruct IH as (k1 & ss1 & H1 & H2 & H3). exists k1, ss1. split; [now right|]. split; assumption.
+Qed.
+
+Lemma name_of_app : forall (hp ext : list (node P)) p, p < List.length hp -> name_of (hp ++ ext) p = name_of hp p.
+Proof. intros hp ext p Hp. unfold name_of. now rewrite nth_error_app1. Qed.
+
+Lemma cut_ok_ext : forall hp ext sl sl' c pr, cut_ok hp sl c pr -> sinks_mono sl sl' -> cut_ok (hp ++ ext) sl' c pr.
+Proof.
+  intros hp ext sl sl' c pr (snk & src & p & H1 & H2 & H3 & H4 & H5 & H6 & H7 & H8 & H9 & H10 & k' & ss & H11 & H12 & H13) Hm.
+  destruct (Hm _ _ _ H11 H12) as (ss' & Ha & Hb).
+  exists snk, src, p.
+  rewrite !nth_error_app1 by (apply nth_error_Some; congruence).
+  rewrite name_of_app, app_length by assumption.
+  repeat (split; [first [assumption|lia]|]). exists k', ss'. auto.
+Qed.
+
+Definition CE (st : sstate) : Prop := Forall2 (cut_ok (sheap st) (ssinks st)) (scuts st) (rev (spairs st)).
+
+Lemma Forall2_snoc : forall A B (R : A -> B -> Prop) l l' a b, Forall2 R l l' -> R a b -> Forall2 R (l ++ [a]) (l' ++ [b]).
+Proof. intros A B R l l' a b H Hab. induction H; simpl; constructor; auto. Qed.
+
+Lemma cut_inputs_CE : forall k dname inputs st st' l,
+  CE st -> Forall (fun x => fst (snd (snd x)) < List.length (sheap st)) inputs ->
+  cut_inputs keqb cut_name k dname st inputs = (st', l) ->
+  CE st' /\ (exists ext, sheap st' = sheap st ++ ext) /\ sinks_mono (ssinks st) (ssinks st').
+Proof.
+  intros k dname inputs. induction inputs as [|[iname [ik [p po]]] rest IH]; intros st st' l HC HF Hc; simpl in Hc.
+  - injection Hc as <- <-. split; [assumption|]. split; [exists []; now rewrite app_nil_r|apply sinks_mono_refl].
+  - inversion HF as [|? ? Hp HF']; subst. simpl in Hp.
+    destruct (keqb ik k).
+    + destruct (cut_inputs keqb cut_name k dname st rest) as [st1 l1] eqn:Hr. injection Hc as <- <-.
+      exact (IH st st1 l1 HC HF' Hr).
+    + match type of Hc with (let '(_, _) := cut_inputs _ _ _ _ ?s1 _ in _) = _ => set (st1 := s1) in * end.
+      destruct (cut_inputs keqb cut_name k dname st1 rest) as [st2 l2] eqn:Hr. injection Hc as <- <-.
+      set (cut := mkCut ik (name_of (sheap st) p) po k dname iname) in *.
+      set (sid := List.length (sheap st)) in *.
+      assert (HC1 : CE st1).
+      { unfold CE, st1. simpl. apply Forall2_snoc.
+        - eapply Forall2_impl_in; [|exact HC]. intros c pr _ Hq. eapply cut_ok_ext; [exact Hq|apply add_sink_mono].
+        - set (A := mkNode (cut_name cut) [] None [("input", (p, po))]).
+          set (B := mkNode (cut_name cut) [DEFAULT_OUTPUT] None []).
+          assert (Hs1 : nth_error (sheap st ++ [A; B]) sid = Some A).
+          { rewrite nth_error_app2 by (unfold sid; lia). unfold sid. rewrite Nat.sub_diag. reflexivity. }
+          assert (Hs2 : nth_error (sheap st ++ [A; B]) (S sid) = Some B).
+          { rewrite nth_error_app2 by (unfold sid; lia). unfold sid.
+            replace (S (List.length (sheap st)) - List.length (sheap st)) with 1 by lia. reflexivity. }
+          exists A, B, p. cbn [fst snd].
+          split; [exact Hs1|]. split; [exact Hs2|].
+          repeat (split; [reflexivity|]). rewrite app_length.
+          split; [simpl; lia|]. split; [apply name_of_app; exact Hp|].
+          destruct (add_sink_adds_key ik sid (ssinks st)) as (k' & ss & Ha & Hb & Hc'). exists k', ss. auto. }
+      assert (HF1 : Forall (fun x => fst (snd (snd x)) < List.length (sheap st1)) rest).
+      { eapply Forall_impl; [|exact HF']. intros a Ha. unfold st1. simpl. rewrite app_length. simpl in *. lia. }
+      destruct (IH st1 st2 l2 HC1 HF1 Hr) as (HC2 & (ext & He) & Hm).
+      split; [assumption|]. split.
+      * eexists. rewrite He. unfold st1. simpl. rewrite <- app_assoc. reflexivity.
+      * eapply sinks_mono_trans; [|exact Hm]. unfold st1. simpl. apply add_sink_mono.
+Qed.
+
+Lemma split_visit_CE : forall (done : list (nat * (K * nat))) st n nd inputs st' r,
+  CE st -> nth_error h n = Some nd -> lookupn n done = None ->
+  gather split_output st done (nins nd) = Ok (Ready inputs) ->
+  split_visit keqb key cut_name st n nd inputs = Ok (st', r) -> CE st'.
+Proof.
+  intros done st n nd inputs st' r HC Hn _ Hg Hv.
+  apply gather_spec in Hg. unfold split_visit in Hv.
+  destruct (cut_inputs keqb cut_name (key nd) (nname nd) st inputs) as [st1 l] eqn:Hc.
+  injection Hv as <- <-.
+  assert (HF : Forall (fun x => fst (snd (snd x)) < List.length (sheap st)) inputs).
+  { clear -Hg. induction Hg as [|i x li lx (_ & r & _ & Ho) _ IH]; constructor; [|assumption].
+    apply split_output_ok in Ho. destruct Ho as [Hx Hl]. rewrite Hx. exact Hl. }
+  destruct (cut_inputs_CE _ _ _ _ _ _ HC HF Hc) as (HC1 & _ & _).
+  unfold CE. simpl. eapply Forall2_impl_in; [|exact HC1]. intros c pr _ Hq.
+  eapply cut_ok_ext; [exact Hq|apply sinks_mono_refl].
+Qed.
+
+(* one (sink, source) pair per reported cut, in order, each as described by cut_ok *)
+Lemma split_cuts_exact : forall (g : graph P) r, h = heap g ->
+  split_graph keqb key cut_name g = Ok r ->
+  Forall2 (cut_ok (rheap r) (rparts r)) (rcuts r) (rev (rpairs r)).
+Proof.
+  intros g r Hh H. unfold split_graph in H. rewrite <- Hh in H.
+  destruct (transform (split_visit keqb key cut_name) split_output h (sinks g) (mkS [] [] [] [] [])) as [[[st rs] done]|] eqn:Htr; simpl in H; [|discriminate].
+  injection H as <-.
+  destruct (transform_inv P _ _ _ _ _ h (fun d s => CE s)
+              (fun done st n nd inputs st' r HC Hn Hl Hg Hv => split_visit_CE done st n nd inputs st' r HC Hn Hl Hg Hv)
+              (sinks g) (mkS [] [] [] [] []) st rs done) as [HC _]; [constructor|exact Htr|].
+  simpl. eapply Forall2_impl_in; [|exact HC]. intros c pr _ Hq.
+  rewrite <- (app_nil_r (sheap st)). eapply cut_ok_ext; [exact Hq|].
+  clear. generalize (ssinks st). induction rs as [|x rs IH]; intros sl; simpl; [apply sinks_mono_refl|].
+  eapply sinks_mono_trans; [apply add_sink_mono|apply IH].
+Qed.
+
 End WithKey.
 End Rj.
+
+(* ------------------------------------------------------------------ the parts are disjoint *)
+From EKW Require Import Graph.DedupProofs.
+
+Lemma nth_error_app_Some : forall A (l ext : list A) i x, nth_error l i = Some x -> nth_error (l ++ ext) i = Some x.
+Proof. intros A l ext i x H. rewrite nth_error_app1; [assumption|]. apply nth_error_Some. congruence. Qed.
+
+Section Partition.
+Variable P K : Type.
+Variable keqb : K -> K -> bool.
+Hypothesis keqb_eq : forall a b, keqb a b = true <-> a = b.     (* K.__eq__ is equality *)
+Variable key : node P -> K.
+Variable cut_name : cutedge K -> string.
+Variable h : list (node P).
+
+Notation sstate := (sstate P K).
+
+(* a labelling of the result heap by keys: edges stay inside one label, the sinks filed
+   under k are labelled k, no key is listed twice *)
+Definition labelled (labs : list K) (hp : list (node P)) (sl : list (K * list nat)) : Prop :=
+  List.length labs = List.length hp /\
+  (forall i nd p, nth_error hp i = Some nd -> In p (parents nd) ->
+     exists k, nth_error labs i = Some k /\ nth_error labs p = Some k) /\
+  (forall k ss x, In (k, ss) sl -> In x ss -> nth_error labs x = Some k) /\
+  NoDup (map fst sl).
+
+Lemma add_sink_labelled : forall labs hp sl k s, labelled labs hp sl -> nth_error labs s = Some k ->
+  labelled labs hp (add_sink keqb k s sl).
+Proof.
+  intros labs hp sl k s (H1 & H2 & H3 & H4) Hs. split; [assumption|]. split; [assumption|].
+  clear H1 H2. induction sl as [|[k' ss'] sl IH]; simpl.
+  - split; [|repeat constructor; simpl; tauto]. intros k0 ss x [Heq|[]] Hx. injection Heq as <- <-.
+    destruct Hx as [<-|[]]. assumption.
+  - inversion H4 as [|? ? Hni ND]; subst.
+    destruct (keqb k' k) eqn:E.
+    + apply keqb_eq in E. subst k'. split; [|assumption].
+      intros k0 ss x [Heq|Hin] Hx.
+      * injection Heq as <- <-. apply in_app_or in Hx. destruct Hx as [Hx|[<-|[]]]; [|assumption].
+        apply (H3 k ss' x); [now left|assumption].
+      * apply (H3 k0 ss x); [now right|assumption].
+    + destruct IH as [IH3 IH4]; [intros k0 ss x Hin Hx; apply (H3 k0 ss x); [now right|assumption]|assumption|].
+      split.
+      * intros k0 ss x [Heq|Hin] Hx; [injection Heq as <- <-; apply (H3 k' ss' x); [now left|assumption]|].
+        now apply (IH3 k0 ss x).
+      * simpl. constructor; [|assumption]. intros Hin. apply in_map_iff in Hin. destruct Hin as ([k1 ss1] & Hk & Hin1). simpl in Hk. subst k1.
+        assert (Hc : k' = k \/ In k' (map fst sl)).
+        { clear -Hin1. induction sl as [|[k2 ss2] sl IHs]; simpl in *.
+          - destruct Hin1 as [Heq|[]]. injection Heq as <- _. now left.
+          - destruct (keqb k2 k); destruct Hin1 as [Heq|Hin1]; try (injection Heq as <- _; right; now left).
+            + right. right. apply in_map_iff. now exists (k', ss1).
+            + destruct (IHs Hin1) as [->|H]; [now left|right; now right]. }
+        destruct Hc as [->|Hc]; [|contradiction].
+        assert (keqb k k = true) by (apply keqb_eq; reflexivity). congruence.
+Qed.
+
+Lemma labelled_app : forall labs hp sl k nd, labelled labs hp sl ->
+  (forall p, In p (parents nd) -> nth_error labs p = Some k) ->
+  labelled (labs ++ [k]) (hp ++ [nd]) sl.
+Proof.
+  intros labs hp sl k nd (H1 & H2 & H3 & H4) Hp. split; [rewrite !app_length; simpl; lia|]. split; [|split; [|assumption]].
+  - intros i nd0 p Hi Hin.
+    destruct (Nat.lt_ge_cases i (List.length hp)) as [Hlt|Hge].
+    + rewrite nth_error_app1 in Hi by assumption. destruct (H2 i nd0 p Hi Hin) as (k0 & Ha & Hb).
+      exists k0. split; apply nth_error_app_Some; assumption.
+    + rewrite nth_error_app2 in Hi by assumption.
+      destruct (i - List.length hp) as [|j] eqn:Hj; simpl in Hi; [|destruct j; discriminate].
+      injection Hi as <-. exists k. split; [|apply nth_error_app_Some; now apply Hp].
+      assert (i = List.length labs) by lia. subst i. rewrite nth_error_app2 by lia. now rewrite Nat.sub_diag.
+  - intros k0 ss x Hin Hx. apply nth_error_app_Some. eapply H3; eassumption.
+Qed.
+
+Lemma cut_inputs_labelled : forall k dname inputs st st' l labs,
+  labelled labs (sheap st) (ssinks st) ->
+  Forall (fun x => nth_error labs (fst (snd (snd x))) = Some (fst (snd x))) inputs ->
+  cut_inputs keqb cut_name k dname st inputs = (st', l) ->
+  exists ext, labelled (labs ++ ext) (sheap st') (ssinks st') /\
+              Forall (fun y => nth_error (labs ++ ext) (fst (snd y)) = Some k) l.
+Proof.
+  intros k dname inputs. induction inputs as [|[iname [ik [p po]]] rest IH]; intros st st' l labs HL HF Hc; simpl in Hc.
+  - injection Hc as <- <-. exists []. rewrite app_nil_r. split; [assumption|constructor].
+  - inversion HF as [|? ? Hp HF']; subst. simpl in Hp.
+    destruct (keqb ik k) eqn:E.
+    + apply keqb_eq in E. subst ik.
+      destruct (cut_inputs keqb cut_name k dname st rest) as [st1 l1] eqn:Hr. injection Hc as <- <-.
+      destruct (IH st st1 l1 labs HL HF' Hr) as (ext & HL1 & HF1). exists ext. split; [assumption|].
+      constructor; [simpl; now apply nth_error_app_Some|assumption].
+    + match type of Hc with (let '(_, _) := cut_inputs _ _ _ _ ?s1 _ in _) = _ => set (st1 := s1) in * end.
+      destruct (cut_inputs keqb cut_name k dname st1 rest) as [st2 l2] eqn:Hr. injection Hc as <- <-.
+      set (nm := cut_name (mkCut ik (name_of (sheap st) p) po k dname iname)) in *.
+      assert (Hlen : List.length labs = List.length (sheap st)) by apply HL.
+      assert (HL1 : labelled ((labs ++ [ik]) ++ [k]) (sheap st1) (ssinks st1)).
+      { unfold st1. simpl.
+        replace (sheap st ++ [mkNode nm [] None [("input", (p, po))]; mkNode nm [DEFAULT_OUTPUT] None []])
+          with ((sheap st ++ [mkNode nm [] None [("input", (p, po))]]) ++ [mkNode nm [DEFAULT_OUTPUT] None []])
+          by (rewrite <- app_assoc; reflexivity).
+        apply add_sink_labelled.
+        - apply labelled_app; [apply labelled_app; [assumption|]|intros q []].
+          intros q [<-|[]]. simpl. exact Hp.
+        - rewrite <- Hlen. rewrite <- app_assoc. rewrite nth_error_app2 by lia. now rewrite Nat.sub_diag. }
+      assert (HF1 : Forall (fun x => nth_error ((labs ++ [ik]) ++ [k]) (fst (snd (snd x))) = Some (fst (snd x))) rest).
+      { eapply Forall_impl; [|exact HF']. intros a Ha. rewrite <- app_assoc. now apply nth_error_app_Some. }
+      destruct (IH st1 st2 l2 _ HL1 HF1 Hr) as (ext & HL2 & HF2).
+      exists ([ik; k] ++ ext).
+      replace (labs ++ [ik; k] ++ ext) with (((labs ++ [ik]) ++ [k]) ++ ext) by (rewrite <- !app_assoc; reflexivity).
+      split; [assumption|]. constructor; [|assumption]. cbn [fst snd].
+      apply nth_error_app_Some. rewrite <- Hlen.
+      rewrite nth_error_app2 by (rewrite app_length; simpl; lia). rewrite app_length. cbn [List.length].
+      replace (S (List.length labs) - (List.length labs + 1)) with 0 by lia. reflexivity.
+Qed.
+
+Definition PI (done : list (nat * (K * nat))) (st : sstate) : Prop :=
+  exists labs, labelled labs (sheap st) (ssinks st) /\
+               forall m kr, In (m, kr) done -> nth_error labs (snd kr) = Some (fst kr).
+
+Lemma split_output_lab : forall (st : sstate) r o x, split_output st r o = Ok x -> x = (fst r, (snd r, o)).
+Proof.
+  intros st r o x H. unfold split_output in H.
+  destruct (nth_error (sheap st) (snd r)) as [nd|]; [|discriminate].
+  destruct (smemb o (nouts nd)); [|discriminate]. now injection H as <-.
+Qed.
+
+Lemma split_visit_PI : forall done st n nd inputs st' r,
+  PI done st -> nth_error h n = Some nd -> lookupn n done = None ->
+  gather split_output st done (nins nd) = Ok (Ready inputs) ->
+  split_visit keqb key cut_name st n nd inputs = Ok (st', r) -> PI ((n, r) :: done) st'.
+Proof.
+  intros done st n nd inputs st' r (labs & HL & HD) Hn _ Hg Hv.
+  apply gather_spec in Hg. unfold split_visit in Hv.
+  destruct (cut_inputs keqb cut_name (key nd) (nname nd) st inputs) as [st1 l] eqn:Hc.
+  injection Hv as <- <-.
+  assert (HF : Forall (fun x => nth_error labs (fst (snd (snd x))) = Some (fst (snd x))) inputs).
+  { clear -Hg HD. induction Hg as [|i x li lx (_ & r & Hl & Ho) _ IH]; constructor; [|assumption].
+    apply split_output_lab in Ho. rewrite Ho. simpl. apply (HD _ _ (lookupn_In _ _ _ _ Hl)). }
+  destruct (cut_inputs_labelled _ _ _ _ _ _ _ HL HF Hc) as (ext & HL1 & HF1).
+  exists ((labs ++ ext) ++ [key nd]). split.
+  - simpl. apply labelled_app; [assumption|]. intros p Hp. unfold parents in Hp. simpl in Hp.
+    apply in_map_iff in Hp. destruct Hp as (y & <- & Hy). rewrite Forall_forall in HF1. now apply HF1.
+  - intros m kr [Heq|Hin].
+    + injection Heq as <- <-. simpl.
+      assert (Hlen : List.length (labs ++ ext) = List.length (sheap st1)) by apply HL1.
+      rewrite <- Hlen. rewrite nth_error_app2 by lia. now rewrite Nat.sub_diag.
+    + rewrite <- app_assoc. apply nth_error_app_Some. exact (HD m kr Hin).
+Qed.
+
+Lemma nodup_fst_fun : forall A (l : list (K * A)) k a b, NoDup (map fst l) -> In (k, a) l -> In (k, b) l -> a = b.
+Proof.
+  induction l as [|[k' v] l IH]; intros k a b ND Ha Hb; [contradiction|].
+  inversion ND as [|? ? Hni ND']; subst. simpl in Hni.
+  destruct Ha as [Ha|Ha]; destruct Hb as [Hb|Hb].
+  - congruence.
+  - injection Ha as -> ->. exfalso. apply Hni. apply in_map_iff. now exists (k, b).
+  - injection Hb as -> ->. exfalso. apply Hni. apply in_map_iff. now exists (k, a).
+  - eapply IH; eassumption.
+Qed.
+
+(* a node of the result is reachable from the sinks of at most one part *)
+Lemma split_partition : forall (g : graph P) r, h = heap g ->
+  split_graph keqb key cut_name g = Ok r ->
+  forall x k1 ss1 k2 ss2, In (k1, ss1) (rparts r) -> In (k2, ss2) (rparts r) ->
+    reachable (rheap r) ss1 x -> reachable (rheap r) ss2 x -> (k1, ss1) = (k2, ss2).
+Proof.
+  intros g r Hh H. unfold split_graph in H. rewrite <- Hh in H.
+  destruct (transform (split_visit keqb key cut_name) split_output h (sinks g) (mkS [] [] [] [] [])) as [[[st rs] done]|] eqn:Htr; simpl in H; [|discriminate].
+  injection H as <-.
+  destruct (transform_inv P _ _ _ _ _ h PI split_visit_PI (sinks g) (mkS [] [] [] [] []) st rs done) as [(labs & HL & HD) HF].
+  - exists []. split; [|intros m kr []]. split; [reflexivity|]. split; [intros i nd p Hi; destruct i; discriminate|].
+    split; [intros k ss x []|constructor].
+  - exact Htr.
+  - simpl.
+    assert (HLf : labelled labs (sheap st) (fold_left (fun l kr => add_sink keqb (fst kr) (snd kr) l) rs (ssinks st))).
+    { assert (Hrs : forall kr, In kr rs -> nth_error labs (snd kr) = Some (fst kr)).
+      { intros kr Hin. destruct (Forall2_ex_l _ _ _ _ _ HF kr Hin) as (s & _ & Hl). apply (HD _ _ (lookupn_In _ _ _ _ Hl)). }
+      clear -HL Hrs keqb_eq. revert HL. generalize (ssinks st). induction rs as [|kr rs IH]; intros sl HL; simpl; [assumption|].
+      apply IH; [intros kr0 Hin; apply Hrs; now right|]. apply add_sink_labelled; [assumption|apply Hrs; now left]. }
+    destruct HLf as (_ & H2 & H3 & H4).
+    assert (Hreach : forall k ss x, In (k, ss) (fold_left (fun l kr => add_sink keqb (fst kr) (snd kr) l) rs (ssinks st)) ->
+                       reachable (sheap st) ss x -> nth_error labs x = Some k).
+    { intros k ss x Hin Hx. induction Hx as [s Hs|n nd p _ IH Hn Hp].
+      - eapply H3; eassumption.
+      - destruct (H2 n nd p Hn Hp) as (k0 & Ha & Hb). congruence. }
+    intros x k1 ss1 k2 ss2 Hi1 Hi2 Hr1 Hr2.
+    pose proof (Hreach _ _ _ Hi1 Hr1) as E1. pose proof (Hreach _ _ _ Hi2 Hr2) as E2.
+    assert (k1 = k2) by congruence. subst k2. f_equal. eapply nodup_fst_fun; eassumption.
+Qed.
+
+End Partition.
